@@ -33,9 +33,15 @@ pub open spec fn same_except_sched(a: Zeroconf, b: Zeroconf) -> bool {
 pub open spec fn timers_superset(a: Multiset<u64>, b: Multiset<u64>) -> bool {
     forall|x: u64| a.count(x) >= b.count(x)
 }
-// every queued re-run has a wake-up timer at (exactly) its due time   (C12)
-pub open spec fn timers_cover(z: Zeroconf) -> bool {
-    forall|i: int| 0 <= i < z.retransmissions@.len() ==> z.timers@.count((#[trigger] z.retransmissions@[i]).next_time) > 0
+// every queued re-run that is due after t0 has a wake-up timer at (exactly) its due time   (C12).  The run loop pops the
+// timers up to `now` and then executes the re-runs due up to `now`; in between, cover holds from `now` on only, so the
+// handlers are specified for every floor t0 (cover_kept), and timers_cover is the case "all of them"
+pub open spec fn cover_gt(z: Zeroconf, t0: int) -> bool {
+    forall|i: int| 0 <= i < z.retransmissions@.len() && (#[trigger] z.retransmissions@[i]).next_time > t0 ==> z.timers@.count(z.retransmissions@[i].next_time) > 0
+}
+pub open spec fn timers_cover(z: Zeroconf) -> bool { cover_gt(z, -1) }
+pub open spec fn cover_kept(a: Zeroconf, b: Zeroconf) -> bool {
+    forall|t0: int| #![trigger cover_gt(a, t0)] #![trigger cover_gt(b, t0)] cover_gt(a, t0) ==> cover_gt(b, t0)
 }
 pub open spec fn is_browse_for(c: Command, ty: Seq<char>) -> bool {
     match c { Command::Browse(t, _, _, _) => t@ == ty, _ => false }
@@ -69,8 +75,13 @@ pub open spec fn cmd_name_ok(c: Command) -> bool {
     }
 }
 pub open spec fn cmd_ok(c: Command) -> bool { cmd_sched_ok(c) && cmd_name_ok(c) }
+// the kinds of command that are ever queued for a later run
+pub open spec fn rerun_kind(c: Command) -> bool {
+    c is Browse || c is ResolveHostname || c is Resolve || c is Verify || c is UnregisterResend || c is RegisterResend
+}
+pub open spec fn rerun_ok(c: Command) -> bool { cmd_ok(c) && rerun_kind(c) }
 pub open spec fn queue_ok(z: Zeroconf) -> bool {
-    forall|i: int| 0 <= i < z.retransmissions@.len() ==> cmd_ok((#[trigger] z.retransmissions@[i]).command)
+    forall|i: int| 0 <= i < z.retransmissions@.len() ==> rerun_ok((#[trigger] z.retransmissions@[i]).command)
 }
 pub open spec fn backoff(d: u32) -> u32 { if 2 * d <= 3600 { (2 * d) as u32 } else { 3600u32 } }
 // set_ip_check_interval(u32 seconds) stores seconds * 1000
@@ -104,7 +115,7 @@ impl Zeroconf {
             forall|i: int| old(self).retransmissions@.len() <= i < final(self).retransmissions@.len() ==>
                 (#[trigger] final(self).retransmissions@[i]).command is Resolve && final(self).timers@.count(final(self).retransmissions@[i].next_time) > 0,
             timers_superset(final(self).timers@, old(self).timers@),
-            forall|i: int| old(self).retransmissions@.len() <= i < final(self).retransmissions@.len() ==> cmd_ok((#[trigger] final(self).retransmissions@[i]).command),
+            forall|i: int| old(self).retransmissions@.len() <= i < final(self).retransmissions@.len() ==> rerun_ok((#[trigger] final(self).retransmissions@[i]).command),
     { unimplemented!() }
     // only sends AddressesFound events
     #[verifier::external_body]
@@ -196,11 +207,11 @@ impl Zeroconf {
     { unimplemented!() }
     #[verifier::external_body]
     pub fn del_interface_addr(&mut self, intf: &Interface)
-        ensures queue_ok(*old(self)) ==> queue_ok(*final(self)), timers_cover(*old(self)) ==> timers_cover(*final(self)), final(self).ip_check_interval == old(self).ip_check_interval,
+        ensures queue_ok(*old(self)) ==> queue_ok(*final(self)), cover_kept(*old(self), *final(self)), final(self).ip_check_interval == old(self).ip_check_interval,
     { unimplemented!() }
     #[verifier::external_body]
     pub fn check_ip_changes(&mut self)
-        ensures queue_ok(*old(self)) ==> queue_ok(*final(self)), timers_cover(*old(self)) ==> timers_cover(*final(self)), final(self).ip_check_interval == old(self).ip_check_interval,
+        ensures queue_ok(*old(self)) ==> queue_ok(*final(self)), cover_kept(*old(self), *final(self)), final(self).ip_check_interval == old(self).ip_check_interval,
     { unimplemented!() }
     #[verifier::external_body]
     pub fn send_cmd_to_self(&self, cmd: Command) -> (r: Result<()>) { unimplemented!() }
@@ -257,8 +268,11 @@ impl ServiceInfo {
 // field-level forms of queue_ok / timers_cover, for loop invariants that hold while a part of the daemon state is
 // mutably borrowed (same bodies)
 pub open spec fn queue_ok_rs(rs: Seq<ReRun>) -> bool {
-    forall|i: int| 0 <= i < rs.len() ==> cmd_ok((#[trigger] rs[i]).command)
+    forall|i: int| 0 <= i < rs.len() ==> rerun_ok((#[trigger] rs[i]).command)
 }
-pub open spec fn cover_rs(rs: Seq<ReRun>, timers: Multiset<u64>) -> bool {
-    forall|i: int| 0 <= i < rs.len() ==> timers.count((#[trigger] rs[i]).next_time) > 0
+pub open spec fn cover_rs_gt(rs: Seq<ReRun>, timers: Multiset<u64>, t0: int) -> bool {
+    forall|i: int| 0 <= i < rs.len() && (#[trigger] rs[i]).next_time > t0 ==> timers.count(rs[i].next_time) > 0
+}
+pub open spec fn cover_rs_kept(a: Zeroconf, rs: Seq<ReRun>, timers: Multiset<u64>) -> bool {
+    forall|t0: int| #[trigger] cover_gt(a, t0) ==> cover_rs_gt(rs, timers, t0)
 }
